@@ -107,6 +107,7 @@ class PoolWorld:
         self.closed_pools = set()
         self.closing = set()  # pools on which gather_and_close() has been called
         self.flushes_begun = collections.Counter()
+        self.cancelled_ops = set()  # (actor, pc) of coroutine ops whose caller was cancelled by the harness
         self.slow_ids = scen.get("slow_ids")
         self.inline = scen.get("inline") or {}
         self.live = collections.Counter()
@@ -188,6 +189,8 @@ class PoolWorld:
             how = "ret"
             try:
                 w.point("w_start", key, tag)
+                if variant == "instant":
+                    return ("done", tag)
                 stage = 0
                 while True:
                     f = w.loop.create_future()
@@ -409,7 +412,7 @@ class PoolWorld:
             len(self.viol), len(self.dup_keys), len(self.bad_names),
             sorted(self.start_order.items()),
             sorted(self.cancel_targets),
-            sorted(self.closed_pools), sorted(self.closing), sorted(self.flushes_begun.items()),
+            sorted(self.closed_pools), sorted(self.closing), sorted(self.flushes_begun.items()), sorted(self.cancelled_ops),
             [m.__canon__() for m in self.monitors],
         )
 
@@ -672,6 +675,7 @@ class PoolWorld:
             if name == "cancel_op":
                 # the caller of a pending flush()/... is cancelled (what asyncio.wait_for does on timeout)
                 self.drivers[pos[0]].cancel()
+                self.cancelled_ops.add((pos[0], self.pcs[pos[0]] - 1))
                 return ("ok",)
             if name == "new_pool":
                 spec = pos[0] if pos else {}
